@@ -515,7 +515,7 @@ func genSidxQuery(t *rapid.T, c *xCase) xOp {
 
 func sidxSpec(property string) verifkit.Spec[xCase] {
 	return verifkit.Spec[xCase]{
-		Property: property, Unit: "sidx",
+		Property: property, Unit: "sidx", CrashReplay: true,
 		Rule: "histories against the real sidx through its public interface: 1..6 write batches of 1..25 elements (3 series, keys from a small range with " +
 			"many duplicates, unique payloads), interleaved with flush, merge of an arbitrary subset of file parts (with a query between merge computation and " +
 			"publication) and queries (series subset, inclusive MinKey/MaxKey, asc/desc, MaxBatchSize 1..100 or unlimited); oracle: QuerySync and " +
@@ -649,7 +649,7 @@ func (e *xEnv) checkPinned(pin *xPin, what string) error {
 
 func TestVerifC05Sidx(t *testing.T) {
 	verifkit.Run(t, verifkit.Spec[xCase]{
-		Property: "C05", Unit: "sidx_split",
+		Property: "C05", Unit: "sidx_split", CrashReplay: true,
 		Rule: "sidx histories (1..6 write batches over 3 series, flushes, merges of arbitrary subsets of file parts) in which every publication - memory part, " +
 			"flush, merge - is prepared and committed in two steps through the snapshot transition interface, exactly as the trace introducer does, with ordered " +
 			"queries and a scan BETWEEN the two steps, and in which up to 3 readers pin the current snapshot and evaluate it any number of publications later " +
